@@ -467,16 +467,13 @@ class DataQuerent(object):
             if len(node.members) == 0:
                 return []
 
-            matched_indices = self.filter_for_indices(
-                node.members[:node.descriptor.n_members], path_component,
-            )
-
-            if not matched_indices:
-                return []
-
             replication_envelope = []
             for i in range(0, len(node.members), node.descriptor.n_members):
                 member_nodes = node.members[i: i + node.descriptor.n_members]
+                # Match within each repetition: members of different repetitions can carry
+                # different IDs, e.g. marker operators (223255) take the ID of the element
+                # they refer to.
+                matched_indices = self.filter_for_indices(member_nodes, path_component)
                 sub_nodes = [member_nodes[i] for i in matched_indices]
 
                 if path_component.separator == PATH_SEPARATOR_DESCEND:
